@@ -31,5 +31,5 @@ Theorem stream_error_never_after_close : forall ds ks tr s pre post,
 Proof.
   intros ds ks tr s pre post Hr E.
   destruct (INV_run ds ks tr s Hr) as [Hw _].
-  destruct (wire_ok_count _ Hw) as (_ & _ & H). rewrite (H pre post E). intros [].
+  destruct (wire_ok_count _ Hw) as (_ & _ & _ & _ & H). rewrite (H pre post E). intros [].
 Qed.
